@@ -59,14 +59,15 @@ type ScaledConst struct {
 }
 
 type TierSpec struct {
-	Params    map[string]int `json:"params"`
-	Preempts  int            `json:"preempts"`
-	MemYield  bool           `json:"memyield"`
-	TimeoutS  int            `json:"timeout_s"`
-	MaxPaths  int            `json:"max_paths"`
-	Witnesses int            `json:"witnesses"`
-	MaxSteps  int            `json:"max_steps"`
-	Sched     string         `json:"sched"` // "" = every order at blocking points; "det" = one round-robin order
+	Params     map[string]int `json:"params"`
+	Preempts   int            `json:"preempts"`
+	MemYield   bool           `json:"memyield"`
+	TimeoutS   int            `json:"timeout_s"`
+	MaxPaths   int            `json:"max_paths"`
+	Witnesses  int            `json:"witnesses"`
+	MaxSteps   int            `json:"max_steps"`
+	CrossCheck bool           `json:"cross_check"` // repeat every final assertion query on z3 4.8.12
+	Sched      string         `json:"sched"`       // "" = every order at blocking points; "det" = one round-robin order
 }
 
 type RunSpec struct {
@@ -113,33 +114,34 @@ type KnownFinding struct {
 }
 
 type RunResult struct {
-	Spec        *RunSpec
-	Tier        *TierSpec
-	Paths       int
-	Done        int
-	Nontrivial  int
-	Instrs      int
-	Forks       int
-	Merges      int
-	ModelHits   int
-	Ends        map[string]int
-	Covers      map[string]bool
-	Findings    []*Finding
-	Witnesses   []*Witness
-	Queries     map[string]int
-	SolverSec   map[string]float64
-	Final       int
-	RepoFuncs   []string
-	Wall        float64
-	Load        float64
-	Complete    bool
-	StopReason  string
-	Skipped     string
-	MaxThreads  int
-	WitnessOK   int
-	WitnessBad  []string
-	PkgName     string
-	SkippedInit []string
+	Spec                        *RunSpec
+	Tier                        *TierSpec
+	Paths                       int
+	Done                        int
+	Nontrivial                  int
+	Instrs                      int
+	Forks                       int
+	Merges                      int
+	ModelHits                   int
+	Ends                        map[string]int
+	Covers                      map[string]bool
+	Findings                    []*Finding
+	Witnesses                   []*Witness
+	Queries                     map[string]int
+	SolverSec                   map[string]float64
+	Final                       int
+	RepoFuncs                   []string
+	Wall                        float64
+	Load                        float64
+	Complete                    bool
+	StopReason                  string
+	Skipped                     string
+	MaxThreads                  int
+	WitnessOK                   int
+	WitnessBad                  []string
+	PkgName                     string
+	CrossChecked, CrossMismatch int
+	SkippedInit                 []string
 }
 
 func main() {
@@ -704,6 +706,8 @@ func exploreRun(spec *Spec, run *RunSpec, ts *TierSpec, nworkers, seed int, know
 		res.Merges += e.Merges
 		res.ModelHits += e.ModelHits
 		res.Final += e.finalQueries
+		res.CrossChecked += e.CrossChecked
+		res.CrossMismatch += e.CrossMismatch
 		for k, v := range e.ends {
 			res.Ends[k] += v
 		}
@@ -774,6 +778,9 @@ func newEngine(prog *ssa.Program, run *RunSpec, ts *TierSpec, knownIDs map[strin
 	e.setupSyncExt()
 	e.setupHTTPModel()
 	e.setupModels()
+	if ts.CrossCheck {
+		e.crossCheck = crossCheckFinal
+	}
 	e.maxPreempts = ts.Preempts
 	e.detSched = ts.Sched == "det"
 	e.memYield = ts.MemYield
@@ -792,6 +799,9 @@ func (e *Engine) allSolvers() []*Solver {
 	}
 	if e.fpSolver != nil {
 		ss = append(ss, e.fpSolver)
+	}
+	if e.xSolver != nil {
+		ss = append(ss, e.xSolver)
 	}
 	return ss
 }
@@ -1129,5 +1139,29 @@ func demoteMislabelled(res *RunResult, knownLabels map[string][]string) {
 		if !ok {
 			f.Class = ""
 		}
+	}
+}
+
+// crossCheckFinal repeats a decided final (assertion) query on a second solver
+// (z3 4.8.12) with the whole path condition; a disagreement is an engine error.
+func crossCheckFinal(e *Engine, c *Term, r string) {
+	if e.pathFP {
+		return // floating-point paths are decided by cvc5 only (z3 needs minutes per query)
+	}
+	if e.xSolver == nil {
+		e.xSolver = NewSolver("z3")
+	}
+	xs := e.xSolver
+	xs.Reset()
+	for _, a := range e.pc {
+		xs.Assert(a)
+	}
+	r2, _ := xs.Check(c, nil)
+	e.CrossChecked++
+	if r2 != r && r2 != "unknown" {
+		e.CrossMismatch++
+		e.engineErrors = append(e.engineErrors, "solver disagreement on a final query: "+e.solver.name+"="+r+" z3-4.8.12="+r2)
+		e.ends["engine-error"]++
+		e.ends["engine-error: solver disagreement on a final assertion query"]++
 	}
 }
